@@ -18,6 +18,7 @@ import (
 	"fmt"
 	"os"
 	"path/filepath"
+	"runtime"
 	"sort"
 	"strconv"
 	"strings"
@@ -40,6 +41,7 @@ type rot struct {
 	hangs  int  // hangs seen by this process
 	zombie int  // writers that could not be made to return
 	seq    int
+	w      *worker
 }
 
 var scratchDir string
@@ -76,6 +78,8 @@ func (a *rot) cleanup() {
 		a.root = ""
 	}
 }
+
+func rotationDefaultMaxSize() int { return rotation.DefaultMaxSize }
 
 func writeTag(k int) byte { return byte(k%199 + 1) }
 func preTag(i int) byte   { return byte(200 + i%50) }
@@ -170,13 +174,55 @@ func errStr(err error) string {
 	return "error"
 }
 
-// cpuTime is the CPU time (user+system) consumed so far by this process.
-func cpuTime() time.Duration {
-	var ru syscall.Rusage
-	if err := syscall.Getrusage(syscall.RUSAGE_SELF, &ru); err != nil {
-		return 0
+// threadCPU is the CPU time (user+system) consumed so far by one OS thread of this process; ok=false if /proc does
+// not tell. (Process-wide CPU time is useless here: garbage collector threads burn CPU while a descheduled writer waits.)
+func threadCPU(tid int) (time.Duration, bool) {
+	data, err := os.ReadFile(fmt.Sprintf("/proc/self/task/%d/stat", tid))
+	if err != nil {
+		return 0, false
 	}
-	return time.Duration(ru.Utime.Nano() + ru.Stime.Nano())
+	i := bytes.LastIndexByte(data, ')')
+	if i < 0 {
+		return 0, false
+	}
+	f := strings.Fields(string(data[i+1:]))
+	if len(f) < 13 {
+		return 0, false
+	}
+	ut, e1 := strconv.ParseInt(f[11], 10, 64)
+	st, e2 := strconv.ParseInt(f[12], 10, 64)
+	if e1 != nil || e2 != nil {
+		return 0, false
+	}
+	return time.Duration(ut+st) * (time.Second / 100), true // USER_HZ is 100 on Linux
+}
+
+type job struct {
+	r   *rotation.Rotator
+	b   []byte
+	out chan wres
+}
+
+// worker is a goroutine pinned to its own OS thread that executes the Write calls, so that the CPU time a Write
+// consumes can be read per thread.
+type worker struct {
+	jobs chan job
+	tid  int
+}
+
+func newWorker() *worker {
+	w := &worker{jobs: make(chan job)}
+	ready := make(chan int)
+	go func() {
+		runtime.LockOSThread() // never unlocked: the thread ends with the goroutine
+		ready <- syscall.Gettid()
+		for j := range w.jobs {
+			n, err := j.r.Write(j.b)
+			j.out <- wres{n, err}
+		}
+	}()
+	w.tid = <-ready
+	return w
 }
 
 func envMS(name string, def int) time.Duration {
@@ -188,8 +234,8 @@ func envMS(name string, def int) time.Duration {
 	return time.Duration(def) * time.Millisecond
 }
 
-// A Write of at most a few hundred bytes needs microseconds of CPU. It is declared hung when the process has burnt
-// spinBudget of CPU time while waiting for it (a runaway retry loop; robust against a loaded machine, where wall time
+// A Write of at most a few hundred bytes needs microseconds of CPU. It is declared hung when its thread has burnt
+// spinBudget of CPU time since the first poll (a runaway retry loop; robust against a loaded machine, where wall time
 // says little), or when wallBudget has passed (blocked for good).
 var (
 	spinBudget = envMS("C12_SPIN_MS", 250)
@@ -205,26 +251,34 @@ type wres struct {
 
 // write runs one Write under a deadline. ok=false: it did not return.
 func (a *rot) write(b []byte) (wres, bool) {
+	if a.w == nil {
+		a.w = newWorker()
+	}
+	w := a.w
 	ch := make(chan wres, 1)
-	r := a.r
-	go func() {
-		n, err := r.Write(b)
-		ch <- wres{n, err}
-	}()
-	cpu0, t0 := cpuTime(), time.Now()
+	w.jobs <- job{a.r, b, ch}
+	t0 := time.Now()
 	tick := time.NewTicker(20 * time.Millisecond)
 	defer tick.Stop()
+	var cpu0 time.Duration
+	haveBase := false
 wait:
 	for {
 		select {
 		case res := <-ch:
 			return res, true
 		case <-tick.C:
-			if cpuTime()-cpu0 >= spinBudget || time.Since(t0) >= wallBudget {
+			cpu, ok := threadCPU(w.tid)
+			if ok && !haveBase {
+				cpu0, haveBase = cpu, true
+			}
+			if (ok && cpu-cpu0 >= spinBudget) || time.Since(t0) >= wallBudget {
 				break wait
 			}
 		}
 	}
+	a.w = nil // the worker is stuck inside Write; it ends when the Write is made to fail below
+	close(w.jobs)
 	// The writer spins inside Write holding the lock. Make it fail so that it stops burning a core: replace the
 	// log directory by a regular file (MkdirAll then errors out and Write returns).
 	a.hangs++
@@ -376,6 +430,8 @@ func (a *rot) Run(line string) string {
 
 func main() {
 	a := &rot{}
-	hx.Main(map[string]hx.Area{"rot": a, "stress": &stress{}})
+	d := &rotdef{}
+	hx.Main(map[string]hx.Area{"rot": a, "rotdef": d, "stress": &stress{}})
 	a.cleanup()
+	d.cleanup()
 }
